@@ -1173,6 +1173,23 @@ class WrapperText:
             if d[0][0] == "param" and "WrapAsVariadic" in (prog.types[d[2]["t"]] if "t" in d[2] else ""):
                 self.va_id = lid
         self.tokens = []
+        # secondary text buffers (`let mut buf = Vec::new(); write!(buf, ..)`) and what has been queued on the declarator stack
+        self.stack = body.params[-2].get("id") if len(body.params) >= 2 else None
+        self.bufs = {}
+        for lid, d in body.local_def.items():
+            t = prog.types[d[2]["t"]] if d[2].get("t") is not None else ""
+            if d[0][0] == "let" and t in ("std::vec::Vec<u8>", "std::string::String") and lid in body.local_mut:
+                self.bufs[lid] = []
+        self.pending = []
+
+    def out(self, target=None):
+        return self.tokens if target is None or target == self.writer else self.bufs[target]
+
+    def target_of(self, e):
+        lid = local_id(e)
+        if lid == self.writer:
+            return lid
+        return lid if lid in self.bufs else None
 
     # -- conditions ---------------------------------------------------------------------------------
     def atom_value(self, a):
@@ -1222,7 +1239,7 @@ class WrapperText:
         return False
 
     def is_write(self, c):
-        return c["k"] == "MCall" and c["name"] in ("write_fmt", "write_all", "write_str") and local_id(c["recv"]) == self.writer
+        return c["k"] == "MCall" and c["name"] in ("write_fmt", "write_all", "write_str") and self.target_of(c["recv"]) is not None
 
     def is_helper(self, c):
         cal = callee(c)
@@ -1255,10 +1272,20 @@ class WrapperText:
             return None
         return None
 
-    def lit(self, text):
-        self.tokens += [("T", t) for t in C_TOKEN.findall(text)]
+    def lit(self, text, to=None):
+        to = self.tokens if to is None else to
+        to += [("T", t) for t in C_TOKEN.findall(text)]
 
-    def arg(self, n):
+    def arg(self, n, to=None):
+        real = self.tokens
+        if to is not None and to is not real:
+            # same logic, other sink
+            self.tokens = to
+            try:
+                self.arg(n)
+            finally:
+                self.tokens = real
+            return
         b = self.b
         v = self.value(n)
         if v is not None:
@@ -1328,29 +1355,57 @@ class WrapperText:
         elif k == "Closure":
             return
         elif k in ("Call", "MCall") and self.is_write(n):
+            sink = self.out(self.target_of(n["recv"]))
             ps = fmt_pieces(b, n)
             if ps is None:
                 a = n["args"][0] if n["args"] else {}
                 v = self.value(a)
                 if n["name"] != "write_fmt" and v is not None:
-                    self.lit(v)
+                    self.lit(v, sink)
                 else:
-                    self.tokens.append(("UNKNOWN", "write at %s" % b.loc(n)))
+                    sink.append(("UNKNOWN", "write at %s" % b.loc(n)))
                 return
             for kind, x in ps:
                 if kind == "lit":
-                    self.lit(x)
+                    self.lit(x, sink)
                 else:
-                    self.arg(x)
+                    self.arg(x, sink)
+        elif k == "MCall" and n.get("name") == "push" and self.stack is not None and local_id(n["recv"]) == self.stack:
+            # text queued on the declarator stack is written right after the specifier of the next type that is serialised
+            v = self.value(n["args"][0]) if n["args"] else None
+            if v is None and n["args"] and strip(n["args"][0]).get("k") == "MCall" and strip(n["args"][0])["name"] in ("to_owned", "to_string", "into"):
+                v = self.value(strip(n["args"][0])["recv"])
+            if v is not None:
+                self.lit(v, self.pending)
+            else:
+                ids = []
+                todo, seen = [n["args"][0]], set()
+                while todo:
+                    e = todo.pop()
+                    for x in b.walk(e):
+                        if x["k"] == "Local" and x["id"] not in seen:
+                            seen.add(x["id"])
+                            if x["id"] in self.bufs:
+                                ids.append(x["id"])
+                            elif b.local_init(x["id"]) is not None:
+                                todo.append(b.local_init(x["id"]))
+                if len(ids) == 1:
+                    self.pending += self.bufs[ids[0]]
+                else:
+                    self.pending.append(("UNKNOWN", "declarator pushed at %s" % b.loc(n)))
         elif k in ("Call", "MCall") and self.is_helper(n):
             cal = callee(n)
             if cal.endswith("serialize_args"):
-                self.tokens.append(("PARAMS", local_id(n["args"][0]), n))
+                tgt = self.target_of(n["args"][-1])
+                (self.out(tgt) if tgt is not None else self.tokens).append(("PARAMS", local_id(n["args"][0]), n))
             elif cal.endswith("serialize_sep"):
                 src = strip(n["args"][1])
                 self.tokens.append(("NAMES", local_id(src), self.value(n["args"][0]), n))
             elif cal.startswith("<%s as %s" % (TYPE, CS)) or cal.startswith("<%s as %s" % (TYPEID, CS)):
                 self.tokens.append(("TYPE", "ret" if mentions(b, n["recv"], "FunctionSig::return_type") else "?"))
+                if local_id(n["args"][2]) == self.stack:
+                    self.tokens += self.pending
+                    self.pending = []
             else:
                 self.tokens.append(("UNKNOWN", "call %s" % cal))
         else:
@@ -1740,3 +1795,149 @@ def r16_8(rep):
                     "serialize_items still reads it to build the wrapper file (it is always empty there)" % (f, b.path), b.loc(c))
         else:
             rep.ok("option-intact:%s" % f)
+
+
+# ---------------------------------------------------------------------------------------------------------
+# R16.9  C declarator composition: where `const` and the `[n]` / `(..)` suffixes go
+# ---------------------------------------------------------------------------------------------------------
+ARM_CLASS = {
+    # writes a type specifier: a `const ` prefix qualifies exactly this type
+    "Void": "specifier", "NullPtr": "specifier", "Int": "specifier", "Float": "specifier", "Complex": "specifier",
+    "Comp": "specifier", "Enum": "specifier",
+    # a typedef name is a specifier; an unnamed alias hands over to its referent
+    "Alias": "specifier-or-delegate",
+    # hands over to another type with the same pending declarator
+    "ResolvedTypeRef": "delegate",
+    # `*` is a prefix operator of the declarator
+    "Pointer": "prefix-declarator",
+    # `[n]` and `(params)` are suffix operators: they bind tighter than `*`
+    "Array": "suffix-declarator", "Function": "suffix-declarator",
+}
+
+
+def _is_self_const(tb, n):
+    n = strip(n)
+    return n.get("k") == "MCall" and callee(n) == TYPE + "::is_const" and local_id(n["recv"]) == tb.params[0].get("id")
+
+
+def _const_sites(tb, arm_body, wid, stack_id):
+    """(node, how) for every place of the arm where the qualifier of `self` is acted on: how = 'prefix' (written to the output
+    before anything else of the type) or 'push' (queued on the declarator stack)."""
+    out = []
+    for n in tb.walk(arm_body):
+        if n["k"] != "If" or not any(_is_self_const(tb, x) for x in tb.walk(n["cond"])):
+            continue
+        for c in tb.calls(None, n["then"]):
+            if c["k"] == "MCall" and c["name"] == "write_fmt" and local_id(c["recv"]) in wid:
+                out.append((c, "prefix", n))
+            elif c["k"] == "MCall" and c["name"] == "push" and local_id(c["recv"]) == stack_id:
+                out.append((c, "push", n))
+    return out
+
+
+@RULES.rule("R16.9", "C declarators: `const` is placed by the arm that owns the type, suffixes bind before `*` and in source order", floor=16)
+def r16_9(rep):
+    """Necessary for the wrapper to compile against the static function (`int f(int (*p)[2])`, `int g(int m[3][2])`,
+    `int h(int *const p)`): C declarators are read inside-out, `[n]` and `(..)` bind tighter than `*`, and a qualifier written as
+    a prefix attaches to the innermost base type.  So (a) an arm that only forwards to another type must not print `const `
+    itself unless it knows the referent will not — otherwise a const POINTER behind a type reference becomes a pointer to
+    const (`const int *const p`) and const referents are qualified twice; (b) a suffix arm has to take the pending declarator
+    off the stack (parenthesised when it starts with `*`) before it recurses; (c) its own suffix has to be attached before the
+    element type adds inner suffixes."""
+    tb = serializer(rep, TYPE)
+    wid = {tb.params[-1].get("id")}
+    stack_id = tb.params[-2].get("id")
+    km = [n for n in tb.nodes if n["k"] == "Match" and (tb.ty(n["scrut"]) or "").replace("&", "") == "ir::ty::TypeKind"]
+    rep.need(km, "match over TypeKind in <Type as CSerialize>::serialize")
+    top = km[0]
+    seen = set()
+    for a in top["arms"]:
+        for v in pat_variants(a["pat"]):
+            kind = v.split("::")[-1]
+            cls = ARM_CLASS.get(kind)
+            if cls is None:
+                continue
+            seen.add(kind)
+            body = a["body"]
+            rec = [c for c in tb.calls(lambda x: x["k"] == "MCall" and CS in callee(x), body)
+                   if any(local_id(x) == stack_id for x in c["args"]) and not any(y["k"] == "Closure" for y in tb.ancestors(c) if y["_i"] > body["_i"])]
+            sites = _const_sites(tb, body, wid, stack_id)
+            for c, how, iff in sites:
+                if cls in ("specifier", "specifier-or-delegate"):
+                    # on a path that also recurses with the same stack the arm is a delegate
+                    same_path = [r for r in rec if any(x is iff for x in tb.ancestors(r)) or
+                                 not ([g for g in tb.guards(r) if g not in tb.guards(iff)])]
+                    delegating = cls == "specifier-or-delegate" and bool(same_path) and how == "prefix"
+                    rep.check(how == "prefix" and not delegating, "const-placement:" + kind,
+                              "`const ` is written in front of the specifier" if how == "prefix" and not delegating else
+                              "the qualifier of a %s is %s" % (kind, "queued on the declarator stack" if how == "push" else "written before handing over to the referent"),
+                              tb.loc(c))
+                elif cls == "delegate":
+                    other = []
+                    for pol, gk, g in tb.guards(c):
+                        if gk == "cond":
+                            other += [x for x in tb.walk(g) if x["k"] == "MCall" and x.get("name") == "is_const" and not _is_self_const(tb, x)]
+                    other += [x for x in tb.walk(iff["cond"]) if x["k"] == "MCall" and x.get("name") == "is_const" and not _is_self_const(tb, x)]
+                    ok = how == "prefix" and bool(other)
+                    rep.check(ok, "const-placement:" + kind,
+                              "`const ` is only written when the referent does not carry the qualifier itself" if ok else
+                              "`const ` is written unconditionally before the referent: a const pointer parameter (`int *const p`) becomes `const int *const p`, "
+                              "a const referent is qualified twice", tb.loc(c))
+                elif cls == "prefix-declarator" or cls == "suffix-declarator":
+                    rep.check(how == "push", "const-placement:" + kind,
+                              "the qualifier of the %s joins the declarator (stack)" % kind if how == "push" else
+                              "a `const ` prefix in a %s arm qualifies the base type, not the %s" % (kind, kind.lower()), tb.loc(c))
+            if cls == "suffix-declarator":
+                pops = [c for c in tb.calls(lambda x: x["k"] == "MCall" and x["name"] in ("pop", "drain", "split_off", "take") and
+                                            local_id(x["recv"]) == stack_id, body)]
+                pops += [c for c in tb.calls(lambda x: x["k"] == "Call" and callee(x).startswith("std::mem::take") and
+                                             any(local_id(y) == stack_id for y in x["args"]), body)]
+                rep.check(bool(pops), "suffix-binds-tighter:" + kind,
+                          "the pending declarator is taken off the stack inside the arm" if pops else
+                          "the %s suffix is written without taking the pending declarator: with `*` pending (`int (*p)[2]`) the text reads `int *p [2]`, "
+                          "an array of pointers" % kind, tb.loc(body))
+                if kind == "Array":
+                    # the local(s) bound to the length
+                    ids = set()
+                    def binds(p):
+                        if p.get("k") == "Bind":
+                            ids.add(p["id"])
+                        for q in p.get("ps", []):
+                            binds(q)
+                    binds(a["pat"])
+                    ty_len = [i for i in ids if (tb.prog.types[tb.local_def[i][2].get("t")] if tb.local_def[i][2].get("t") is not None else "").replace("&", "") == "usize"]
+                    uses = [n for n in tb.walk(body) if n["k"] == "Local" and n["id"] in (ty_len or ids) and
+                            (tb.ty(n) or "").replace("&", "") == "usize"]
+                    first_rec = min((c["_i"] for c in rec), default=None)
+                    ok = bool(uses) and first_rec is not None and all(u["_i"] < first_rec for u in uses)
+                    rep.check(ok, "array:dimension-order", "the `[len]` of this array is attached before the element type is serialised" if ok else
+                              "the element type is serialised before this array's `[len]` is written: nested arrays print the inner dimension "
+                              "first (`int m[3][2]` becomes `int m [2] [3]`)", tb.loc(body))
+    for kind in ("Array", "Function", "Pointer", "ResolvedTypeRef", "Alias", "Int", "Comp", "Enum"):
+        rep.need(kind in seen, "TypeKind::%s arm of <Type as CSerialize>::serialize" % kind)
+    # (d) the return type is a type like any other: what it declares (the wrapper with its parameter list, the `ret` variable)
+    # has to be its pending declarator, otherwise `int (*f(void))(int)` is written `int (*) (int) f__extern(void)`
+    sb = serializer(rep, FN)
+    fstack = sb.params[-2].get("id")
+    rets = [c for c in sb.calls(lambda x: x["k"] == "MCall" and callee(x).startswith("<%s as %s" % (TYPE, CS)))
+            if mentions(sb, c["recv"], "FunctionSig::return_type")]
+    rep.need(rets, "serialisation of the return type in <Function as CSerialize>::serialize")
+    cs_calls = sorted(c["_i"] for c in sb.calls(lambda x: x["k"] == "MCall" and CS in callee(x)))
+    for n, c in enumerate(rets):
+        st = strip(c["args"][2])
+        ok = False
+        what = "an empty declarator"
+        if st.get("k") == "Local" and st["id"] == fstack:
+            prev = max([i for i in cs_calls if i < c["_i"]], default=-1)
+            pushes = [p for p in sb.calls(lambda x: x["k"] == "MCall" and x["name"] == "push" and local_id(x["recv"]) == fstack)
+                      if prev < p["_i"] < c["_i"] and [g for g in sb.guards(p) if g[1] != "letelse"] == [g for g in sb.guards(c) if g[1] != "letelse"]]
+            ok = bool(pushes)
+            if ok:
+                what = "`%s`" % sb.canon(pushes[-1]["args"][0], 2)[:60]
+        elif mentions(sb, st, "into_vec") or st.get("k") == "Array" or sb.macro_name(st) == "vec":
+            ok = any(x["k"] in ("Local", "Lit") for x in sb.walk(st) if x is not st)
+            what = "`%s`" % sb.canon(st, 2)[:60]
+        rep.check(ok, "return-type-declarator:%d@Function::serialize" % n,
+                  "the return type is written around %s" % what if ok else
+                  "the return type is serialised with nothing pending and the name is written after it: a function returning a pointer to a "
+                  "function or array gets `int (*) (int) f__extern(void)`, which is not C", sb.loc(c))
